@@ -418,6 +418,8 @@ fn gen_len(r: &mut Prng) -> usize {
         4 => 32 * 256 - 33 + r.range(0, 66),
         5 => 1024 + 32 * r.range(0, 8) + r.range(0, 31),
         6 => r.range(2000, 4200),
+        7 => 1024 * r.range(1, 8) + *r.pick(&[0usize, 1, 31, 32, 33]) - *r.pick(&[0usize, 1]),
+        8 => 32 * *r.pick(&[63usize, 64, 65, 127, 128, 129, 255, 256, 257]) + *r.pick(&[0usize, 1, 31]),
         _ => r.heavy(1, 1500),
     }
 }
@@ -430,7 +432,32 @@ fn gen_spec(r: &mut Prng) -> SeqSpec {
     }
 }
 
+/// One world in 800 works beyond 2^16 rows (small column counts, long runs of one symbol) or beyond a 1 MiB
+/// matrix (32 columns, more than 2^20 symbols): few operations, every check is O(length).
+fn gen_huge_world(r: &mut Prng, idx: u64) -> Sc {
+    let abc = if idx % 3 == 2 { Abc::Protein } else { Abc::Dna };
+    let wide = r.chance(1, 2);
+    let columns = if wide { 32 } else { *r.pick(&[1usize, 2, 4]) };
+    let len = if wide {
+        32 * (32768 + *r.pick(&[0usize, 1, 33, 1000])) + *r.pick(&[0usize, 1, 31]) - *r.pick(&[0usize, 1, 32])
+    } else {
+        columns * (65536 + *r.pick(&[0usize, 1, 2, 500])) + *r.pick(&[0usize, 1]) - *r.pick(&[0usize, 1])
+    };
+    let spec = SeqSpec { len, seed: r.next_u64(), kind: *r.pick(&[0u8, 2, 2, 3]) };
+    let b = if columns == 32 { *r.pick(&[Backend::Avx2, Backend::Dispatch, Backend::Generic]) } else { Backend::Generic };
+    let mut ops = vec![Op::StripeInto(spec, b), Op::CountSymbols, Op::CountSymbol(r.usize_below(21))];
+    if r.chance(1, 2) {
+        ops.push(Op::ConfigureWrap(r.range(1, 40)));
+        ops.push(Op::CountSymbol(r.usize_below(21)));
+    }
+    ops.push(Op::Index(r.next_u64() as usize));
+    Sc { abc, columns, host: if cpu::real_host_has_avx2() { Host::Avx2 } else { Host::Sse2 }, alloc: Policy::System, ops }
+}
+
 pub fn gen_world(r: &mut Prng, idx: u64) -> Sc {
+    if idx % 800 == 799 {
+        return gen_huge_world(r, idx);
+    }
     let abc = if idx % 3 == 2 { Abc::Protein } else { Abc::Dna };
     let columns = match (idx / 3) % 8 {
         0 => 1,
